@@ -1050,6 +1050,42 @@ def r04j(run):
     run.floor("R04j", "integer expansions of input-built Decimals", total, 1)
 
 
+def r04k(run):
+    """the generated data-class __init__ is an entry point that is not wrapped by a parser: before parsing starts, its
+    positional argument is only used as a mapping under an isinstance test (anything else raises a bare TypeError /
+    ValueError out of dict.update)"""
+    f = run.repo.func("utype.parser.cls", "ClassParser.make_init.__init__")
+    fa = analysis(f)
+    a = f.node.args
+    pos = [x.arg for x in a.posonlyargs + a.args][1:]       # without the instance
+    total = 0
+    for P in pos:
+        for n in fa.cfg.nodes:
+            if n.ast is None or n.kind not in ("stmt", "iter", "with"):
+                continue
+            uses = []
+            for c in fa.calls_at(n):
+                if any(isinstance(x, ast.Name) and x.id == P for x in c.args) or any(
+                        isinstance(k.value, ast.Name) and k.value.id == P and k.arg is None for k in c.keywords) or any(
+                        isinstance(x, ast.Starred) and isinstance(x.value, ast.Name) and x.value.id == P for x in c.args):
+                    if call_attr(c) in ("isinstance", "getattr", "hasattr", "type", "id", "repr"):
+                        continue
+                    uses.append(unparse(c)[:50])
+            if n.kind == "iter" and isinstance(n.ast, ast.Name) and n.ast.id == P:
+                uses.append(f"for ... in {P}")
+            for u in uses:
+                total += 1
+                ok = any(p and isinstance(at, ast.Call) and call_attr(at) == "isinstance" and at.args
+                         and unparse(at.args[0]) == P for at, p in fa.facts.atoms_at(n))
+                run.check("R04k", f, f"`{u}` uses the positional argument `{P}` only under an isinstance test", ok,
+                          construct=f"positional argument {P} used without a type test",
+                          message=f"the generated __init__ hands its positional argument to `{u}` without an isinstance test: a "
+                                  f"truthy non-mapping (User(5), User('text'), User(object())) raises a bare TypeError / "
+                                  f"ValueError before any parsing starts",
+                          necessity="an exception that is not a ParseError escapes from constructing a data class", node=n.ast)
+    run.floor("R04k", "uses of the positional argument in the generated __init__", total, 1)
+
+
 def check(run):
     run.rules_run += ["R04a", "R04b", "R04c", "R04d", "R04e"]
     run.explain("C04: (R04a) every converter / validator / class-held constructor call in the parse core is inside a "
@@ -1081,6 +1117,8 @@ def check(run):
     run.rule(r04i, run)
     run.rules_run.append("R04j")
     run.rule(r04j, run)
+    run.rules_run.append("R04k")
+    run.rule(r04k, run)
     # shared with C18: recursion through nested data classes ends at the input's depth - or, for a cyclic input, at the
     # interpreter's stack limit, which is only reached in reasonable time if a level is not re-parsed several times
     from . import c18
